@@ -4,3 +4,7 @@ import Norad.Props.C10
 #print axioms Kern.glyphset_membership_only
 #print axioms Kern.validator_sets_membership_only
 #print axioms Kern.rename_tables_lookup_only
+#print axioms Kern.upconvert_order_independent
+#print axioms Kern.upconvert_perm_independent
+#print axioms Kern.features_order_independent
+#print axioms Kern.features_with_order_list
